@@ -27,7 +27,7 @@ DECIDES = ('G3: every generator that redirects the error/return/break/continue l
 NOT_DECIDED = ('implicit __context__ chaining (done by PyErr_SetObject / the exc_info save-restore helpers of Exceptions.c), reference counting of the cause, '
                'the run-time order of blocks; in which emitted segment (between placed labels) the saved exc_info must be restored — e.g. dropping the restore at except_end_label of '
                'TryExceptStatNode is not seen, the emitted control flow is not modelled; the loop condition of __Pyx_PyErr_GetTopmostException (copied from CPython); the except* runtime '
-               '(ExceptStar section) beyond the slot positions; `raise MemoryError from exc` drops the cause on the unmodified tree (rule C22-CAUSE-SHORTCUT written, pending finding, not registered).')
+               '(ExceptStar section) beyond the slot positions; the shortcut raises that bypass __Pyx_Raise are only decided structurally (rule C22-CAUSE-SHORTCUT, armed after the repair 8c2cbe4d5).')
 
 # Single edits tried on a scratch copy for C22-CAUSE (rules/sC22.py): (file, edit, outcome)
 MUTATIONS = [
@@ -61,4 +61,4 @@ MUTATIONS = [
 
 def run(ctx):
     from ..rules import exc, sC22, pC22
-    return gen.label_rules(ctx) + [gen2.rule_G2(ctx), gen2.rule_G1(ctx)] + exc.rules(ctx) + [sC22.rule_cause(ctx)] + pC22.rules(ctx)
+    return gen.label_rules(ctx) + [gen2.rule_G2(ctx), gen2.rule_G1(ctx)] + exc.rules(ctx) + [sC22.rule_cause(ctx), sC22.rule_cause_shortcut(ctx)] + pC22.rules(ctx)
